@@ -246,7 +246,11 @@ func c06NilRes(r *fw.Run, p *fw.Program) {
 						}
 					}
 				}
-				if len(derefs) == 0 {
+				// the result kept in a local that closures capture (a cell assigned once): every load of
+				// the cell, here and in the closures, is the result; a dereference of a load needs a nil
+				// test of a load of the same cell (or of the result) before it
+				cellBad, cellPos, cellN := c06NilResCell(p, rv, errV, in.errC)
+				if len(derefs) == 0 && cellN == 0 {
 					continue
 				}
 				name := fw.ShortFn(cal)
@@ -260,6 +264,10 @@ func c06NilRes(r *fw.Run, p *fw.Program) {
 						bad = "result #" + fmt.Sprint(i) + " of " + name + " (nil on its failure path) is dereferenced without a dominating nil test"
 						badPos = p.Rel(use.Pos())
 					}
+				}
+				if bad == "" && cellBad != "" {
+					bad = "result #" + fmt.Sprint(i) + " of " + name + " (nil on its failure path), kept in a captured local, " + cellBad
+					badPos = cellPos
 				}
 				if bad != "" && c06FieldGetOfOwnField(call) {
 					ru.Ok(key, p.Rel(call.Pos()), "FieldGet of a constant name that a dominating Field* call on the same decoder added")
@@ -333,4 +341,125 @@ func c06GuardedNonNil(rv, errV ssa.Value, errContract bool, b *ssa.BasicBlock) b
 		}
 	}
 	return false
+}
+
+// c06NilResCell: rv is stored into a local cell (an Alloc, because closures capture the variable) that
+// has no other store in the function or in the closures capturing it. Returns a description of the
+// first unguarded dereference of a load of the cell (in the function or in a closure), its position,
+// and the number of dereferencing loads found.
+func c06NilResCell(p *fw.Program, rv, errV ssa.Value, errContract bool) (bad, pos string, n int) {
+	var cell *ssa.Alloc
+	for _, rf := range *rv.Referrers() {
+		if st, ok := rf.(*ssa.Store); ok && st.Val == rv {
+			if al, ok := st.Addr.(*ssa.Alloc); ok {
+				cell = al
+			}
+		}
+	}
+	if cell == nil || cell.Referrers() == nil {
+		return "", "", 0
+	}
+	// the cell and the free variables it is bound to in closures
+	cells := []ssa.Value{cell}
+	for _, rf := range *cell.Referrers() {
+		if mc, ok := rf.(*ssa.MakeClosure); ok {
+			f, _ := mc.Fn.(*ssa.Function)
+			if f == nil {
+				return "", "", 0
+			}
+			for bi, b := range mc.Bindings {
+				if b == ssa.Value(cell) && bi < len(f.FreeVars) {
+					cells = append(cells, f.FreeVars[bi])
+				}
+			}
+		}
+	}
+	stores := 0
+	loads := map[ssa.Value]bool{}
+	for _, c := range cells {
+		if c.Referrers() == nil {
+			continue
+		}
+		for _, rf := range *c.Referrers() {
+			switch x := rf.(type) {
+			case *ssa.Store:
+				if x.Addr == c {
+					stores++
+				} else {
+					return "", "", 0 // the cell's address escapes
+				}
+			case *ssa.UnOp:
+				if x.Op == token.MUL && x.X == c {
+					loads[x] = true
+				}
+			case *ssa.MakeClosure, *ssa.DebugRef:
+			default:
+				return "", "", 0
+			}
+		}
+	}
+	if stores != 1 {
+		return "", "", 0
+	}
+	guarded := func(b *ssa.BasicBlock) bool {
+		for _, g := range c06Guards(b) {
+			g = g.Normalize()
+			bo, ok := g.Cond.(*ssa.BinOp)
+			if !ok || (bo.Op != token.EQL && bo.Op != token.NEQ) {
+				continue
+			}
+			var other ssa.Value
+			if isNilConst(bo.Y) {
+				other = bo.X
+			} else if isNilConst(bo.X) {
+				other = bo.Y
+			} else {
+				continue
+			}
+			if (loads[other] || other == rv) && (bo.Op == token.NEQ) == g.True {
+				return true
+			}
+			if errContract && errV != nil && other == errV && errV != rv && (bo.Op == token.EQL) == g.True {
+				return true
+			}
+		}
+		return false
+	}
+	for ld := range loads {
+		if ld.Referrers() == nil {
+			continue
+		}
+		for _, use := range *ld.Referrers() {
+			deref := false
+			switch x := use.(type) {
+			case *ssa.FieldAddr:
+				deref = x.X == ld
+			case *ssa.UnOp:
+				deref = x.Op == token.MUL && x.X == ld
+			}
+			if !deref {
+				continue
+			}
+			n++
+			if !guarded(use.Block()) {
+				// a closure created only under the test inherits it
+				if fn := use.Parent(); fn != nil && fn.Parent() != nil {
+					ok := false
+					for _, rf := range *cell.Referrers() {
+						if mc, isMC := rf.(*ssa.MakeClosure); isMC && mc.Fn == ssa.Value(fn) && guarded(mc.Block()) {
+							ok = true
+						}
+					}
+					if ok {
+						continue
+					}
+				}
+				if bad == "" || p.Rel(use.Pos()) < pos {
+					bad = "is dereferenced without a dominating nil test"
+					pos = p.Rel(use.Pos())
+				}
+			}
+		}
+	}
+	return bad, pos, n
 }
